@@ -1240,6 +1240,19 @@ package mcp
 // and equal the body's method; for tools/call, resources/read and prompts/get the Mcp-Name header must be present and
 // equal the name extracted from the body; for a tools/call of a tool the server knows, the parameter headers are
 // checked against that very tool. Older versions are exempt. The client sets exactly these headers from the body.
+// The streamable client's POST: every HTTP request it sends for a message - the first attempt and the retry after a
+// successful authorization alike - has had the standard headers derived from that very message (Mcp-Method,
+// Mcp-Name, Mcp-Param-*) put on the header of that very request, after the protocol-version header was set.
+//@ func (*streamableClientConn).Write [C12]
+//@   track Do as post
+//@   track setStandardHeaders as std
+//@   track setMCPHeaders as base
+//@   requires c != nil
+//@   modifies *
+//@   ensures @at-most-one-retry calls(post) <= 2
+//@   ensures @every-post-carries-the-standard-headers calls(post) <= calls(std) && calls(std) <= calls(base)
+//@   ensures @the-headers-are-those-of-this-message-on-this-request (calls(post) >= 1 ==> callArg(std, 1, 2) == msg && callArg(base, 1, 1) == callArg(post, 1, 1))
+//@        && (calls(post) >= 2 ==> callArg(std, 2, 2) == msg && callArg(base, 2, 1) == callArg(post, 2, 1))
 // extractName decodes the params into a fresh value: nothing visible changes; only the three named methods have a name.
 //@ func extractName [C12]
 //@   ensures @only-named-methods-have-a-name result.1 ==> method == "tools/call" || method == "prompts/get" || method == "resources/read"
